@@ -154,17 +154,18 @@ def write_scenarios(binf, tier, rng):
                [{"op": "open", "fl": fl, "w": 1, "key": K, "size": 64, "algo": "sha256", "time": "7"},
                 {"op": "wchunk", "w": 1, "data": b"0123456789".hex(), "mode": "write_all"}, {"op": "commit", "w": 1}],
                [2], [K, K2], None)
-        # a key with a long history: the bucket is > 64 KiB (any size-triggered maintenance of the bucket happens here)
-        hist = []
+        # a key with a long history (the bucket grows to > 64 KiB): every step of the history is in turn the interrupted
+        # one, so that any size-triggered maintenance of the bucket (whatever its threshold) is swept too
+        hist = [[{"op": "write", "fl": "sync", "key": K2, "data": b"x".hex(), "algo": "sha256"}]]
         for i in range(18):
-            hist += [{"op": "open", "fl": "sync", "w": 20 + i, "key": K, "time": str(100 + i), "meta": {"pad": "é" * 2000, "i": i}},
-                     {"op": "wchunk", "w": 20 + i, "data": (b"v%d" % i).hex(), "mode": "write_all"}, {"op": "commit", "w": 20 + i}]
             if i % 7 == 6:
-                hist.append({"op": "remove", "fl": "sync", "key": K})
-        hist.append({"op": "write", "fl": "sync", "key": K2, "data": b"x".hex(), "algo": "sha256"})
-        yield (f"{fl} overwrite of a key with a long history (bucket > 64 KiB)" + NO_MODEL, hist,
-               [{"op": "open", "fl": fl, "w": 1, "key": K, "time": "900", "meta": ["néw"]}, {"op": "wchunk", "w": 1, "data": D.hex(), "mode": "write_all"}, {"op": "commit", "w": 1}],
-               [2], [K, K2], D)
+                hist.append([{"op": "remove", "fl": fl, "key": K}])
+            hist.append([{"op": "open", "fl": fl, "w": 20 + i, "key": K, "time": str(100 + i), "meta": {"pad": "é" * 2000, "i": i}},
+                         {"op": "wchunk", "w": 20 + i, "data": (b"v%d" % i).hex(), "mode": "write_all"}, {"op": "commit", "w": 20 + i}])
+        for j in range(1, len(hist)):
+            pre = [op for h in hist[:j] for op in h]
+            yield (f"{fl} step {j} of a long history of one key (bucket up to > 64 KiB)" + NO_MODEL, pre, hist[j], [len(hist[j]) - 1], [K, K2],
+                   None if hist[j][0]["op"] == "remove" else b"v")
         yield (f"{fl} remove (tombstone)",
                [{"op": "open", "fl": "sync", "w": 9, "key": K, "time": "5"}, {"op": "wchunk", "w": 9, "data": D.hex(), "mode": "write_all"}, {"op": "commit", "w": 9},
                 {"op": "write", "fl": "sync", "key": K2, "data": b"x".hex(), "algo": "sha256"}],
@@ -231,6 +232,8 @@ def suite_kill(binf, tier, rng, which):
     for name, setup, ops, targets, keys, data in write_scenarios(binf, tier, rng):
         if which == "C04" and not keys:
             continue
+        if which == "C03" and "long history" in name:
+            continue
         mk = make_state_fn(binf, setup)
         # fault-free references: lookups before and after the whole operation
         import tempfile, shutil
@@ -254,7 +257,7 @@ def suite_kill(binf, tier, rng, which):
             shutil.rmtree(base, ignore_errors=True)
         for t in targets:
             big = (data is not None and len(data) > 4096) or name.endswith(NO_MODEL)
-            torn = None if (data is not None and len(data) > 4096) else "all"
+            torn = None if (data is not None and len(data) > 4096) or name.endswith(NO_MODEL) else "all"
             def torn_select(c):
                 p = c.get("fdpath")
                 if not p or p[0] != "c" or not _small_write(c):
@@ -653,9 +656,17 @@ def conc_ops(fl):
         "remove_hash A": {"op": "remove_hash", "fl": fl, "sri": sA},
         "exists A": {"op": "exists", "fl": fl, "sri": sA},
         "list": {"op": "list"},
+        # a streamed writer whose commit is rejected (declared size wrong): its content is published, no index record
+        "rejected stream k2 A": [{"op": "open", "fl": fl, "w": 1, "key": K2, "size": 99, "algo": "sha256"},
+                                 {"op": "wchunk", "w": 1, "data": A.hex(), "mode": "write_all"}, {"op": "commit", "w": 1}],
     }
 
+def _as_list(x):
+    return x if isinstance(x, list) else [x]
+
 def _canon_obs(op, r):
+    if isinstance(op, list):
+        op = op[-1]
     c = O.canon_impl(op, r) if r is not None else ("dead",)
     if c[:2] == ("ok", "meta"):
         return strip_time(c)
@@ -725,13 +736,15 @@ def suite_conc(binf, tier, rng):
     pairs = [("write k A", "write k B"), ("write k B", "write k2 A"), ("write k A", "write k2 A"), ("write k B", "remove k"),
              ("write k A", "remove_hash A"), ("write k2 A", "remove_hash A"), ("write k B", "read k"), ("write k B", "metadata k"),
              ("write k B", "list"), ("list", "write k B"), ("remove k", "write k B"), ("remove_hash A", "write k2 A"),
-             ("write_hash A", "remove_hash A"), ("remove k", "metadata k"), ("write k A", "read_hash A"), ("write_hash A", "exists A")]
+             ("write_hash A", "remove_hash A"), ("remove k", "metadata k"), ("write k A", "read_hash A"), ("write_hash A", "exists A"),
+             ("rejected stream k2 A", "write k A"), ("write k A", "rejected stream k2 A")]
     if tier != "quick":
         names = list(ops)
-        pairs += [(a, b) for a in names for b in names if (a, b) not in pairs and (ops[a]["op"] in ("write", "write_hash", "remove", "remove_hash") or ops[b]["op"] in ("write", "write_hash", "remove", "remove_hash"))]
+        mut = lambda n: isinstance(ops[n], list) or ops[n]["op"] in ("write", "write_hash", "remove", "remove_hash")
+        pairs += [(a, b) for a in names for b in names if (a, b) not in pairs and (mut(a) or mut(b))]
     states = [("cold", [])] if tier == "quick" else [("cold", []), ("warm", warm)]
     if tier == "quick":
-        states.append(("warm", warm)); pairs_for = {"cold": pairs[:6], "warm": pairs}
+        states.append(("warm", warm)); pairs_for = {"cold": pairs[:6] + pairs[-2:], "warm": pairs[:-2]}
     else:
         pairs_for = {"cold": pairs, "warm": pairs}
     def serial(setup, first, second):
@@ -740,8 +753,8 @@ def suite_conc(binf, tier, rng):
             c, e = os.path.join(base, "c"), os.path.join(base, "e")
             os.makedirs(c); os.makedirs(e)
             make_state_fn(binf, setup)(c, e)
-            ip = ImplProc(binf, c, e); r1 = ip.op(first); ip.close()
-            ip = ImplProc(binf, c, e); r2 = ip.op(second); ip.close()
+            ip = ImplProc(binf, c, e); r1 = [ip.op(o) for o in _as_list(first)][-1]; ip.close()
+            ip = ImplProc(binf, c, e); r2 = [ip.op(o) for o in _as_list(second)][-1]; ip.close()
             return _canon_obs(first, r1), _canon_obs(second, r2), _canon_tree(c, e)
         finally:
             shutil.rmtree(base, ignore_errors=True)
@@ -758,8 +771,8 @@ def suite_conc(binf, tier, rng):
                 c, e = os.path.join(base, "c"), os.path.join(base, "e")
                 os.makedirs(c); os.makedirs(e)
                 make_state_fn(binf, setup)(c, e)
-                tr = T.trace_ops(binf, c, e, [a], want_reads=True, warmup=T.default_warmup(binf))
-                lo, hi = tr["spans"][0]
+                tr = T.trace_ops(binf, c, e, _as_list(a), want_reads=True, warmup=T.default_warmup(binf))
+                lo, hi = tr["spans"][-1]
                 pts = [(x["name"], x["thread_ord"], x.get("role"), T.brief(x)[:70]) for x in tr["calls"][lo:hi]
                        if any(r == "c" for r, _ in (x.get("paths") or [])) or (x.get("fdpath") or ("",))[0] == "c"]
                 roles = tr["info"]["roles"]; attached = tr["info"]["attached"]
@@ -780,15 +793,15 @@ def suite_conc(binf, tier, rng):
             resA = {}
             def runA():
                 try:
-                    tr = T.trace_ops(binf, c, e, [a], inject=f"{name}:delay_enter=900000:when={ordn}", warmup=T.default_warmup(binf),
+                    tr = T.trace_ops(binf, c, e, _as_list(a), inject=f"{name}:delay_enter=900000:when={ordn}", warmup=T.default_warmup(binf),
                                      only=role if role in ("cch-worker", "blocking-1", "tokio-rt-worker") else None, timeout=60)
-                    resA["r"] = tr["results"][0]; resA["inj"] = len(tr["info"].get("injected_lines") or [])
+                    resA["r"] = tr["results"][-1]; resA["inj"] = len(tr["info"].get("injected_lines") or [])
                     T.cleanup(tr)
                 except Exception as ex:
                     resA["err"] = repr(ex)[:200]
             th = threading.Thread(target=runA); th.start()
             time.sleep(0.45)                                 # A is attached, started and parked at its delay point
-            ip = ImplProc(binf, c, e); rb = ip.op(b); ip.close()
+            ip = ImplProc(binf, c, e); rb = [ip.op(o) for o in _as_list(b)][-1]; ip.close()
             th.join()
             if "err" in resA:
                 return ("skip", job, resA["err"])
